@@ -1,7 +1,14 @@
 import MidoProofs.SrcTie.Vlq
+import MidoProofs.SrcTie.Writer
 #print axioms Mido.src_vlq_loop1
 #print axioms Mido.src_vlq_hi_loop
 #print axioms Mido.src_encode_variable_int
 #print axioms Mido.src_encode_variable_int_neg
 #print axioms Mido.src_read_vlq_loop
 #print axioms Mido.src_read_variable_int
+#print axioms Mido.src_fix_gen
+#print axioms Mido.src_write_chunk
+#print axioms Mido.src_wt_check
+#print axioms Mido.src_wt_loop
+#print axioms Mido.fixEot_toW
+#print axioms Mido.src_write_track
